@@ -24,7 +24,10 @@ THREAD_CFG_EXCLUDE = ('ind/',)          # user-supplied stateful post-lexer: exc
 
 def _strategy(rng):
     k = rng.random()
-    if k < 0.45:
+    if k < 0.25:
+        # park a thread at its k-th arrival inside a lazy-initialisation branch and let the others go first (check-then-act windows)
+        return {'kind': 'window', 'targets': sorted({int(10 ** rng.uniform(0, 1.7)) for _ in range(rng.choice([1, 1, 2]))}), 'p2': rng.choice([0.0, 0.002, 0.01])}
+    if k < 0.5:
         return {'kind': 'random', 'p': rng.choice([0.005, 0.02, 0.05, 0.15, 0.5])}
     if k < 0.75:
         return {'kind': 'pct', 'd': rng.choice([1, 2, 3]), 'est_steps': int(10 ** rng.uniform(2.0, 4.3))}
@@ -347,6 +350,8 @@ class C10(Check):
             return out
         for q, n in sch.overlaps.items():
             out.count('overlap:' + q, 1)
+        if sch.window_parks:
+            out.count('fault:thread-parked-inside-a-lazy-initialisation-branch', sch.window_parks)
         fresh_holder = [None]
         abnormal_before = False
         checked_after_abnormal = 0
